@@ -275,6 +275,9 @@ func streamEngine(seed uint64, n int, driver, corpus, dump, variant string) (*Su
 	if dump != "" {
 		os.WriteFile(dump, []byte(strings.Join(lines, "\n")+"\n"), 0o644)
 	}
+	if variant == "pre" {
+		prePtrProbe(sum)
+	}
 	models, err := runDriver(driver, lines)
 	if err != nil {
 		return nil, err
@@ -297,6 +300,11 @@ func streamEngine(seed uint64, n int, driver, corpus, dump, variant string) (*Su
 		if impls[i].CtxLeak != "" {
 			// direct oracle (C12): a callback's ctx.Get differed from exactly what this call passed
 			sum.addViolation("C12", Mismatch{Case: lines[i], Impl: implLine, What: fmt.Sprintf("a callback's context differs from the values passed to this call (%v, formatter mode %q): %s", c.CtxValues(), c.Fmt, impls[i].CtxLeak)})
+		}
+		if impls[i].StrayPtr != "" {
+			// direct oracle (C12): struct, slice, custom and PostTransform callbacks (and TestFuncs) get a pointer
+			// to the destination of their node
+			sum.addViolation("C12", Mismatch{Case: lines[i], Impl: implLine, What: impls[i].StrayPtr})
 		}
 		mv, err := parseRes(modelLine)
 		if err != nil {
